@@ -970,7 +970,8 @@ class DFA:
 
                 # Create transition to add
                 culled_transition.on_values = list(relevant_values | irrelevant_values)
-                culled_transition.attach(*chain_actions, prepend=True)
+                # Actions left pending on this state (see OptionalNode.convert) come first in program order
+                culled_transition.attach(*getattr(sub_state, "pending_exit_actions", ()), *chain_actions, prepend=True)
                 culled_chained_transitions.append(culled_transition)
 
             for new_transition in culled_chained_transitions:
@@ -991,6 +992,13 @@ class DFA:
             if chained_dfa.starting_state in chained_dfa.accepting_states:
                 for sub_state in sub_states:
                     self.mark_accepting(sub_state)
+                    # ... and whatever is still pending there stays pending, followed by what the start state had pending
+                    if sub_state is not chained_dfa.starting_state and hasattr(chained_dfa.starting_state, "pending_exit_actions"):
+                        sub_state.pending_exit_actions = list(getattr(sub_state, "pending_exit_actions", ())) + list(chained_dfa.starting_state.pending_exit_actions)
+            else:
+                for sub_state in sub_states:
+                    if hasattr(sub_state, "pending_exit_actions"):
+                        del sub_state.pending_exit_actions
 
             for state in chained_dfa.accepting_states:
                 self.mark_accepting(state)
@@ -3900,6 +3908,10 @@ class OptionalNode(ActionSinkNode):
             sub_dfa.append_after(self.next.convert(current_error_handlers), chain_actions=self.finish_actions)
         else:
             sub_dfa.chain_actions_at_end(self.finish_actions)
+            # When the optional is skipped no transition inside it can carry the actions: leave them pending on the
+            # starting state, so that append_after places them on the transitions that later leave it.
+            if self.finish_actions:
+                sub_dfa.starting_state.pending_exit_actions = list(self.finish_actions)
 
         return sub_dfa
 
@@ -3989,11 +4001,15 @@ class LoopNode(ActionSinkNode, ActionSourceNode):
         # If there are error-handling transitions on the accept node, point them to the starting node as fallthrough (so that anything that _isn't_ getting matched by 
         # the last node gets forwarded to the start, looping). If there are no transitions on the final node, point everything to the start.
         for accept_state in sub_dfa.accepting_states:
+            # Actions still pending on the accept state (see OptionalNode.convert) run when the iteration ends there
+            pending = getattr(accept_state, "pending_exit_actions", ())
             for trans in accept_state.transitions:
                 if trans.error_handling:
-                    trans.handles_else(False).fallthrough().to(sub_dfa.starting_state).attach(*self.loop_start_actions)
+                    trans.handles_else(False).fallthrough().to(sub_dfa.starting_state).attach(*pending, *self.loop_start_actions)
             if not accept_state.transitions:
-                accept_state[DFTransition.Else] = DFTransition(fallthrough=True).to(sub_dfa.starting_state).attach(*self.loop_start_actions)
+                accept_state[DFTransition.Else] = DFTransition(fallthrough=True).to(sub_dfa.starting_state).attach(*pending, *self.loop_start_actions)
+            if pending:
+                del accept_state.pending_exit_actions
 
         for state in sub_dfa.states:
             parent_dfa.add(state)
